@@ -323,6 +323,22 @@ impl Check for C07 {
             let p = small_program(&mut s);
             out.push(Case::Sampled { program: p, corruptions: vec![Corruption::Xor { page: 1, at: 1019, bytes: vec![0x5D, 0xEE, 0x0D, 0x96] }] });
         }
+        // the first page filled exactly, so that the XML section starts with the second page (and around that)
+        for len in [944u32, 948, 952, 956, 960] {
+            let p = Program { guid: "{page0}".into(), ops: vec![prog::Op::Blob(crate::gen::BlobSpec { len, seed: 11, chunk: 0, xmlish: false })], end: prog::End::Finalize };
+            out.push(Case::AllBits { program: p, page: 0 });
+        }
+        // a point cloud of several data packets: damage inside a packet whose header lies on an intact page, and an
+        // iterator that is polled again after its error
+        {
+            use e57ref::scene::{RType, Rec};
+            let proto: Vec<Rec> = ["cartesianX", "cartesianY", "cartesianZ"].iter().map(|n| Rec { prefix: None, name: n.to_string(), ty: RType::Double { min: None, max: None } }).collect();
+            let cloud = prog::CloudSpec { guid: "{packets}".into(), proto, n: 9000, seed: 5, nan_ok: false, meta: Default::default(), finalize: true, clear_limits: 0, rejects: vec![] };
+            let p = Program { guid: "{multi-packet}".into(), ops: vec![prog::Op::Cloud(cloud)], end: prog::End::Finalize };
+            for page in [2u8, 30, 63, 64, 65, 100, 128, 129, 170, 200] {
+                out.push(Case::Sampled { program: p.clone(), corruptions: vec![Corruption::Bits { page, bits: vec![777 + page as u16] }] });
+            }
+        }
         out.push(Case::Backends { seed: 7, n: t.pick(300, 5000) as u32 });
         // big files: page bookkeeping of bulk validators and "already checked" caches (block sizes, bit sets, wrap-around)
         out.push(Case::BigFile { pages: t.pick(300, 1100) as u32, damaged: vec![], sweep: true });
